@@ -29,13 +29,16 @@ def localname(k):
 class World(object):
     """Real Host objects + a fake cluster exposing only what the policies read."""
 
-    def __init__(self, dcs, contact=()):
+    def __init__(self, dcs, contact=(), addrs=None):
         from cassandra.pool import Host
         from cassandra.connection import DefaultEndPoint
         from cassandra.policies import SimpleConvictionPolicy
         self.hosts = []
+        self.addrs = list(addrs) if addrs else list(range(len(dcs)))
         for i, d in enumerate(dcs):
-            h = Host(DefaultEndPoint('10.0.0.%d' % (i + 1)), SimpleConvictionPolicy, datacenter=dcname(d), rack=None)
+            # several hosts may share an address and differ by port only (addrs given): Host equality is endpoint equality
+            ep = DefaultEndPoint('10.0.0.%d' % (self.addrs[i] + 1), 9042 + i) if addrs else DefaultEndPoint('10.0.0.%d' % (i + 1))
+            h = Host(ep, SimpleConvictionPolicy, datacenter=dcname(d), rack=None)
             self.hosts.append(h)
         self.idx = dict((h, i) for i, h in enumerate(self.hosts))
         world = self
@@ -44,7 +47,7 @@ class World(object):
             replicas = []
 
             def get_replicas(self, keyspace, key):
-                return list(self.replicas)          # Metadata.get_replicas builds a fresh list on every call
+                return self.replicas                # like TokenMap.get_replicas: the CACHED list object itself, not a copy
 
             def get_host(self, addr):
                 return world.hosts[addr] if isinstance(addr, int) and 0 <= addr < len(world.hosts) else None
@@ -65,12 +68,23 @@ class World(object):
         return dcidx(self.hosts[i].datacenter)
 
 
+def wl_names(spec):
+    """the white list as a user writes it: canonical dotted quads or the short form '10.0.k' that getaddrinfo resolves to
+    '10.0.0.k' (spec['wl_names'][j] = 1); the policy must compare host.address with the RESOLVED addresses"""
+    st = spec.get('wl_names') or [0] * len(spec['allowed'])
+    return [('10.0.%d' if st[j] else '10.0.0.%d') % (a + 1) for j, a in enumerate(spec['allowed'])]
+
+
+def world_of(spec):
+    return World(spec['dcs'], spec.get('contact', ()), spec.get('addrs'))
+
+
 def make_base(spec):
     import cassandra.policies as P
     if spec['kind'] == 'rr':
         return P.RoundRobinPolicy()
     if spec['kind'] == 'wl':
-        return P.WhiteListRoundRobinPolicy(['10.0.0.%d' % (i + 1) for i in spec['allowed']])
+        return P.WhiteListRoundRobinPolicy(wl_names(spec))
     if spec['kind'] == 'dca':
         return P.DCAwareRoundRobinPolicy(localname(spec['local']), spec['used'])
     raise ValueError(spec['kind'])
@@ -191,7 +205,7 @@ def check_plan(world, spec, live, plan, dist, report, wrapper=None, target=None,
                 report('filter.excluded-host-yielded', 'host %d fails the predicate but is in %r' % (h, plan), 'C21_filter')
     if kind == 'wl':
         for h in plan:
-            if h not in spec['allowed'] and not (wrapper == 'default' and h == target):
+            if world.addrs[h] not in spec['allowed'] and not (wrapper == 'default' and h == target):
                 report('wl.excluded-host-yielded', 'host %d is not white-listed but is in %r' % (h, plan), 'C21_whitelist')
     if kind == 'dca':
         body = plan[1:] if (wrapper == 'default' and target is not None) else plan
@@ -209,15 +223,26 @@ def check_plan(world, spec, live, plan, dist, report, wrapper=None, target=None,
                 report('dca.plan.too-many-remote', 'plan %r uses %r remote hosts per dc, configured %d' % (plan, per, spec['used']), 'C21_dc_order')
 
 
-def run_history(spec, history, report=None, queries=('base', 'filter', 'default'), targets=(None,)):
+def token_up(spec, live, i):
+    """Host.is_up for the token-aware query: the scripted value for hosts the policy was told about; never true for the others
+    (the cluster calls on_up/on_add before set_up() and set_down() before on_down/on_remove)"""
+    u = spec['ta']['up'][i]
+    return u if i in live else (None if u else u)
+
+
+def run_history(spec, history, report=None, queries=('base', 'filter', 'default', 'token'), targets=(None,)):
     """Run one history on real objects.  Returns the trace: one record per event with the state after it and every
     plan requested (each plan request is itself a step: it advances _position)."""
     import cassandra.policies as P
-    world = World(spec['dcs'], spec.get('contact', ()))
+    world = world_of(spec)
     base = make_base(spec)
     pred = pred_fn(world, spec.get('pred', {'hosts': list(range(NHOSTS)), 'dc': 0}))
     filt = P.HostFilterPolicy(base, pred)
     dflt = P.DefaultLoadBalancingPolicy(base)
+    tok = P.TokenAwarePolicy(base)
+    tok._cluster_metadata = world.cluster.metadata
+    if 'ta' not in spec:
+        queries = tuple(q for q in queries if q != 'token')
     carriers = {'base': base, 'filter': filt, 'default': dflt}
     live = set()
     trace = []
@@ -244,6 +269,15 @@ def run_history(spec, history, report=None, queries=('base', 'filter', 'default'
                 elif q == 'filter':
                     plan = world.ids(list(filt.make_query_plan(None, None)))
                     dist = dict((i, filt.distance(world.hosts[i])) for i in range(n))
+                elif q == 'token':
+                    ta = spec['ta']
+                    ups = [token_up(spec, live, i) for i in range(n)]
+                    for i in range(n):
+                        world.hosts[i].is_up = ups[i]
+                    world.cluster.metadata.replicas = [world.hosts[i] for i in ta['replicas']]
+                    qobj = Query(routing_key=b'k' if ta['routed'] else None, keyspace='ks')
+                    plan = world.ids(list(tok.make_query_plan(None, qobj)))
+                    dist = dict((i, tok.distance(world.hosts[i])) for i in range(n))
                 else:
                     if dflt._cluster_metadata is None:
                         dflt._cluster_metadata = world.cluster.metadata
@@ -256,14 +290,65 @@ def run_history(spec, history, report=None, queries=('base', 'filter', 'default'
                     dist = dict((i, dflt.distance(world.hosts[i])) for i in range(n))
                 if report is not None:
                     eff_t = tgt[0] if (tgt is not None and tgt[1]) else None
-                    rp = lambda key, what, thm, _q=q, _s=step: report(key, what, thm, step=_s, query=_q)
+                    rp = lambda key, what, thm, _q=q, _s=step: report(
+                        ('token.' + key.split('.', 1)[1]) if _q == 'token' else key, what, thm, step=_s, query=_q)
                     check_plan(world, spec, live, plan, dist, rp, wrapper=None if q == 'base' else q, target=eff_t, pred=pred)
                     if base._position != pos + 1:
                         rp('%s.position' % spec['kind'], 'position %r -> %r' % (pos, base._position), 'model')
                 rec['plans'].append({'q': q, 'ord': ord_, 'plan': plan, 'target': list(tgt) if tgt is not None else None,
-                                     'fdist': [dist[i] for i in range(n)] if q == 'filter' else None})
+                                     'fdist': [dist[i] for i in range(n)] if q == 'filter' else None,
+                                     'ups': [i for i in range(n) if ups[i]] if q == 'token' else None})
         trace.append(rec)
     return trace
+
+
+class HookLock(object):
+    """Stands for policy._hosts_lock.  The first time the outer event reaches the lock, another thread wins the race: a complete
+    second event runs (and releases the lock) before the outer one gets in.  Single-threaded, deterministic."""
+
+    def __init__(self):
+        import threading
+        self.lock = threading.Lock()
+        self.hook = None
+
+    def __enter__(self):
+        h, self.hook = self.hook, None
+        if h is not None:
+            h()
+        self.lock.acquire()
+        return self
+
+    def __exit__(self, *a):
+        self.lock.release()
+        return False
+
+
+def run_race(spec, history, e1, e2, report):
+    """history sequentially, then e1 and e2 (up/down/add/remove of two DIFFERENT hosts) delivered by two threads: e2 runs entirely
+    at the moment e1 reaches _hosts_lock.  Whatever the order, both updates must be reflected (they commute)."""
+    world = world_of(spec)
+    base = make_base(spec)
+    live = set()
+    for ev in history:
+        if apply_event(world, base, ev):
+            live = members_step(live, ev)
+    lock = HookLock()
+    base._hosts_lock = lock
+    lock.hook = lambda: apply_event(world, base, e2)
+    apply_event(world, base, e1)
+    fired = lock.hook is None
+    if not fired:                    # e1 never touched the lock (e.g. a host the white list excludes): plain sequential delivery
+        lock.hook = None
+        apply_event(world, base, e2)
+    live = members_step(members_step(live, e2), e1)
+    n = len(world.hosts)
+    out = []
+    for _ in range(2):
+        plan = world.ids(list(base.make_query_plan(None, None)))
+        dist = dict((i, base.distance(world.hosts[i])) for i in range(n))
+        check_plan(world, spec, live, plan, dist, lambda key, what, thm: report(key.replace('.plan.', '.race.'), what, thm))
+        out.append(plan)
+    return {'plans': out, 'fired': fired, 'state': observe_base(world, spec, base)}
 
 
 # ---------------------------------------------------------------------------------------- C22
@@ -272,7 +357,7 @@ def run_token_aware(case, fixed_shuffle=True):
                'routed': bool, 'keyspace': bool}.  Returns (child_plan, plan, distances, replicas_as_iterated)."""
     import cassandra.policies as P
     spec = case['child']
-    world = World(spec['dcs'], spec.get('contact', ()))
+    world = world_of(spec)
     child = make_base(spec)
     pol = P.TokenAwarePolicy(child, shuffle_replicas=case.get('shuffle') is not None)
     for ev in case['history']:
@@ -293,14 +378,25 @@ def run_token_aware(case, fixed_shuffle=True):
     old = P.shuffle
     perm = case.get('shuffle')
     seen = {}
+    box = {'perm': None}
 
     def scripted_shuffle(lst):
-        if perm is not None:
+        pm = box['perm']
+        if pm is not None:
             items = list(lst)
-            lst[:] = [items[j] for j in perm if j < len(items)] + [items[j] for j in range(len(items)) if j not in perm]
+            lst[:] = [items[j] for j in pm if j < len(items)] + [items[j] for j in range(len(items)) if j not in pm]
         seen['order'] = world.ids(lst)
     P.shuffle = scripted_shuffle
     try:
+        if case.get('prior_shuffle') is not None:
+            # another TokenAwarePolicy (another execution profile) with shuffle_replicas=True shares the Metadata and planned first
+            other = P.TokenAwarePolicy(child, shuffle_replicas=True)
+            other._cluster_metadata = world.cluster.metadata
+            box['perm'] = case['prior_shuffle']
+            list(other.make_query_plan(None, Query(routing_key=b'k', keyspace='ks')))
+            child._position = pos
+            seen.clear()
+        box['perm'] = perm
         plan = world.ids(list(pol.make_query_plan(None, q)))
     finally:
         P.shuffle = old
@@ -317,13 +413,19 @@ def check_token_aware(case, res, report):
             report('ta.unrouted.differs', 'no routing key/keyspace: plan %r != child plan %r' % (plan, child_plan), 'C22_unrouted')
         return
     prefix = [h for h in order if up[h] and dist[h] == LOCAL]
-    if plan[:len(prefix)] != prefix:
+    if plan[:len(prefix)] != prefix and case.get('prior_shuffle') is not None and case.get('shuffle') is None \
+            and sorted(plan[:len(prefix)]) == sorted(prefix):
+        report('ta.prefix.shared-replica-list-shuffled', 'plan %r does not start with the up local replicas in ring order %r: another policy '
+               'with shuffle_replicas shuffled the token map\'s cached replica list in place' % (plan, prefix), 'C22_prefix')
+    elif plan[:len(prefix)] != prefix:
         report('ta.prefix', 'plan %r does not start with the up local replicas %r (replicas %r)' % (plan, prefix, order), 'C22_prefix')
     if len(set(order)) == len(order) and len(set(child_plan)) == len(child_plan) and len(set(plan)) != len(plan):
         report('ta.duplicate', 'plan %r repeats a host (replicas %r child %r)' % (plan, order, child_plan), 'C22_nodup')
     lost = [h for h in child_plan if h not in plan]
     if lost:
-        cls = 'replica-not-up' if all(h in order and not up[h] for h in lost) else 'other'
+        addrs = case['child'].get('addrs')
+        cls = ('replica-not-up' if all(h in order and not up[h] for h in lost) else
+               'shares-address-with-yielded-host' if addrs and all(any(addrs[h] == addrs[x] and h != x for x in plan) for h in lost) else 'other')
         report('ta.lost.%s' % cls, 'hosts %r of the child plan %r are missing from %r (replicas %r, up %r, dist %r)'
                % (lost, child_plan, plan, order, up, dist), 'C22_nothing_lost')
     rest = plan[len(prefix):] if plan[:len(prefix)] == prefix else None
